@@ -307,6 +307,11 @@ pub fn targeted() -> Vec<(Who, Vec<String>)> {
         t.push((who, vec!["join 127.0.0.1:1".into(), "join 127.0.0.1:1".into(), "leave 127.0.0.1:1".into(), "replicate-join 127.0.0.1:1".into(), "replicate-join 127.0.0.1:1".into()]));
         t.push((who, vec!["set-primary 127.0.0.1:2".into(), "set-primary 127.0.0.1:2".into(), "set-primary 127.0.0.1:3".into(), "election win".into(), "set-primary 127.0.0.1:2".into()]));
         t.push((who, vec!["create-db x/y t".into(), "snapshot false x/y".into(), "use-db $admin pwd".into(), "snapshot true".into(), "snapshot false db|adb|$admin".into()]));
+        // a database whose name carries a separator of the internal message formats, then every command that names it
+        for odd in ["a\nb", "a\rb", "a\tb", "a|b", "a\u{b}b", "a;b", " a", "a\u{a0}b", "a\r\n", "\n"] {
+            t.push((who, vec![format!("create-db {} tok", odd), format!("use-db {} tok", odd), "set k v".into(), "increment n".into(), "remove k".into(), "create-user u p".into(),
+                format!("snapshot false {}", odd), format!("snapshot true {}|db", odd), "snapshot false".into(), format!("replicate-snapshot {} false", odd), format!("replicate {} k 1 v", odd)]));
+        }
         t.push((who, vec!["replicate nodb k 1 v".into(), "replicate-remove nodb k".into(), "replicate-increment nodb k 1".into(), "replicate-snapshot nodb".into(), "create-db db tok".into()]));
     }
     t
